@@ -52,6 +52,15 @@ Theorem C15_concurrent_equals_alone :
     o = o1.
 Proof. exact concurrent_eq_alone. Qed.
 
+(* the replay harness schedules at the granularity of visible operations (`vtrace`: local steps, then one lock/cache
+   operation); every configuration it reaches is reached by a plain schedule, so the theorems above and below apply *)
+Theorem C15_visible_schedules_are_schedules :
+  forall (A O : Type) (step : A -> prog A O) (A_eqb : A -> A -> bool) size entry cacheable memo_on
+         (fuel : nat) (sched : list tid) (cf : config A O),
+    exists s, snd (vtrace A O step A_eqb size entry cacheable memo_on fuel sched cf)
+              = exec A O step A_eqb size entry cacheable memo_on s cf.
+Proof. exact vtrace_exec. Qed.
+
 (* non-vacuity: the recursive expression grammar  expr <<= term '+' expr | term ; term <<= '(' expr ')' | num  with a
    shared Forward, packrat on (FIFO 128); thread 0 parses "1+2", thread 1 "(1)"; thread 1's reset_cache lands between
    thread 0's reset and its parse, thread 1 is then pre-empted inside its parse (holding the lock), thread 0 blocks,
